@@ -98,11 +98,19 @@ def write_variants(d, k):
 
 
 def scale_of(shapes):
+    """coordinate magnitude of the shapes (from their points: a shape that is a lone moveto has no bounding box)"""
     m = 1.0
     for s in shapes:
-        bb = s.bbox()
-        if bb:
-            m = max(m, *[abs(v) for v in bb])
+        try:
+            for seg in abs_points(s):
+                for q in seg[1]:
+                    m = max(m, abs(q[0]), abs(q[1]))
+        except engine.CaseTimeout:
+            raise
+        except Exception:
+            bb = s.bbox()
+            if bb:
+                m = max(m, *[abs(v) for v in bb])
     return m
 
 
